@@ -20,13 +20,14 @@ func init() {
 	core.Register(&core.Check{
 		ID: "C18", World: "S (streams)", Level: "exploration",
 		Rule: "one evaluation = one decode or encode call of an event-log stream codec (CryptoAgileLog, TCGPCREvent2, TCGEventData+SP800155Event3, TaggedDigest, ByteSizedCStr, Uint32SizedArray, EfiGUID) on a value with drawn in-range fields, under a stream fault: a chunk schedule (1-byte reads, random chunks, data returned together with EOF), EOF at EVERY prefix length of the encoding (all lengths for encodings up to 700 bytes, 96 drawn lengths beyond), a read error at a drawn offset, or a writer that fails / short-writes at EVERY offset (same bound); " +
-			"oracles: chunking invariance against the decoder's own single-shot result, a strict prefix decodes to an error or to a value that re-encodes to exactly that prefix (up to trailing zero padding), injected read and write errors are returned, a nil Marshal wrote exactly the encoding; non-trivial = at least one stream fault fired; distinct by (codec, fault kind, position class, outcome)",
+			"oracles: chunking invariance against the decoder's own single-shot result, a strict prefix decodes to an error or to a value that re-encodes to exactly that prefix (up to trailing zero padding), injected read and write errors are returned, a nil Marshal wrote exactly the encoding; PI hand-off blocks (generic header, PHIT, resource descriptor, GUID extension incl. sizes around and beyond what the 16-bit length field can describe, hand-built blocks with a wrong type or length) are written through the same failing writers and compared with the PI specification layout; non-trivial = at least one stream fault fired; distinct by (codec, fault kind, position class, outcome)",
 		Assumptions: []string{
-			"scope: codecs that take io.Reader / io.Writer (package eventlog). The slice-based codecs of ovmf/abi, sev/abi.go and pihob.go meet no reader, writer, clock or schedule and are NOT covered",
+			"scope: codecs that take io.Reader / io.Writer (package eventlog, and the WriteTo encoders of the PI hand-off blocks in ovmf/abi/pihob.go). The slice-based codecs of ovmf/abi and sev/abi.go meet no reader, writer, clock or schedule and are NOT covered",
 			"a legal io.Reader may return fewer bytes than asked, and may return the last bytes together with io.EOF",
 		},
 		Components: []core.Component{
 			{Name: "eventlog codecs (Unmarshal/Marshal), SP800155Event3", Kind: "real"},
+			{Name: "ovmf/abi EFIHOB*.WriteTo, CreateEFIHOBGUID", Kind: "real"},
 			{Name: "reader / writer arguments", Kind: "stub", Note: "SimReader, SimWriter"},
 		},
 		Budget: core.StdBudget(1200, 100*time.Second, 150000, 9*time.Minute),
@@ -306,6 +307,171 @@ func c18InnerCut(r *core.Run) {
 	r.Probe("inner-cut")
 }
 
+// efiGUIDBytes is the EFI_GUID byte order of a textual GUID, written down from the UEFI
+// specification (first three fields little endian), independently of the code under test.
+func efiGUIDBytes(g uuid.UUID) []byte {
+	return []byte{g[3], g[2], g[1], g[0], g[5], g[4], g[7], g[6], g[8], g[9], g[10], g[11], g[12], g[13], g[14], g[15]}
+}
+
+func le(n int, v uint64) []byte {
+	out := make([]byte, n)
+	for i := range out {
+		out[i] = byte(v >> (8 * i))
+	}
+	return out
+}
+
+// c18Hob: the PI hand-off block encoders (`WriteTo(io.Writer)`) under the writer seam. The
+// reference encodings follow the PI specification's EFI_HOB_* layouts: generic header {type u16,
+// length u16, reserved u32 = 0}; PHIT = header + version u32 + boot mode u32 + five u64
+// addresses (56 bytes); resource descriptor = header + owner GUID + type u32 + attribute u32 +
+// start u64 + length u64 (48 bytes); GUID extension = header + GUID + data, 8-byte aligned,
+// whose length field is its size - so a block of 64 KiB or more does not exist.
+func c18Hob(r *core.Run) {
+	u64 := func(l string) uint64 { return uint64(r.Intn(1<<30, l))<<34 | uint64(r.Intn(1<<30, l+"-lo")) }
+	var write func(io.Writer) (int64, error)
+	var ref []byte // nil: the value must be refused
+	name := ""
+	switch r.Intn(5, "hob-kind") {
+	case 0:
+		name = "EFIHOBGenericHeader"
+		h := oabi.EFIHOBGenericHeader{HobType: uint16(r.Intn(1<<16, "hob-type")), HobLength: uint16(r.Intn(1<<16, "hob-len"))}
+		write, ref = h.WriteTo, append(append(le(2, uint64(h.HobType)), le(2, uint64(h.HobLength))...), 0, 0, 0, 0)
+	case 1:
+		name = "EFIHOBHandoffInfoTable"
+		t := oabi.EFIHOBHandoffInfoTable{Header: oabi.EFIHOBGenericHeader{HobType: oabi.EFIHOBTypeHandoff, HobLength: oabi.SizeOfEFIHOBHandoffInfoTable},
+			Version: uint32(r.Intn(1<<30, "phit-version")), BootMode: oabi.EFIBootMode(r.Intn(1<<30, "phit-boot")), EfiMemoryTop: oabi.EFIPhysicalAddress(u64("top")), EfiMemoryBottom: oabi.EFIPhysicalAddress(u64("bottom")),
+			EfiFreeMemoryTop: oabi.EFIPhysicalAddress(u64("ftop")), EfiFreeMemoryBottom: oabi.EFIPhysicalAddress(u64("fbottom")), EfiEndOfHobList: oabi.EFIPhysicalAddress(u64("end"))}
+		write = t.WriteTo
+		ref = append(append(le(2, 1), le(2, 56)...), 0, 0, 0, 0)
+		for _, f := range [][]byte{le(4, uint64(t.Version)), le(4, uint64(t.BootMode)), le(8, uint64(t.EfiMemoryTop)), le(8, uint64(t.EfiMemoryBottom)), le(8, uint64(t.EfiFreeMemoryTop)), le(8, uint64(t.EfiFreeMemoryBottom)), le(8, uint64(t.EfiEndOfHobList))} {
+			ref = append(ref, f...)
+		}
+	case 2:
+		name = "EFIHOBResourceDescriptor"
+		g := uuid.UUID{byte(r.Intn(256, "owner0")), 2, 3, 4, 5, 6, 7, 8, 9, 10, 11, 12, 13, 14, 15, byte(r.Intn(256, "owner15"))}
+		d := oabi.EFIHOBResourceDescriptor{Header: oabi.EFIHOBGenericHeader{HobType: oabi.EFIHOBTypeResourceDescriptor, HobLength: oabi.SizeofEFIHOBResourceDescriptor}, Owner: oabi.FromUUID(g),
+			ResourceType: oabi.EFIResourceType([]int{0, 7, r.Intn(1<<30, "res-type")}[r.Intn(3, "res-type-kind")]), ResourceAttribute: oabi.EFIResourceAttributeType(r.Intn(1<<30, "res-attr")), PhysicalStart: oabi.EFIPhysicalAddress(u64("start")), ResourceLength: u64("length")}
+		write = d.WriteTo
+		ref = append(append(le(2, 3), le(2, 48)...), 0, 0, 0, 0)
+		for _, f := range [][]byte{efiGUIDBytes(g), le(4, uint64(d.ResourceType)), le(4, uint64(d.ResourceAttribute)), le(8, uint64(d.PhysicalStart)), le(8, d.ResourceLength)} {
+			ref = append(ref, f...)
+		}
+	default:
+		name = "EFIHOBGUID"
+		g := uuid.UUID{0xde, 0xad, byte(r.Intn(256, "guid2")), 4, 5, 6, 7, 8, 9, 10, 11, 12, 13, 14, 15, byte(r.Intn(256, "guid15"))}
+		var n int
+		switch r.Intn(3, "guid-hob-size") {
+		case 0:
+			n = r.Intn(70, "guid-hob-data")
+		case 1:
+			n = oabi.MaxGUIDHOBDataSize - 24 + r.Intn(48, "guid-hob-edge") // around the largest block the 16-bit length field can describe
+		default:
+			n = 1<<16 - 32 + 8*r.Intn(1200, "guid-hob-big") // up to and beyond 64 KiB
+		}
+		data := make([]byte, n)
+		for i := range data {
+			data[i] = byte(i*7 + n)
+		}
+		padded := append([]byte(nil), data...)
+		for len(padded)%8 != 0 {
+			padded = append(padded, 0)
+		}
+		fits := 24+len(padded) < 1<<16
+		if fits {
+			ref = append(append(append(le(2, 4), le(2, uint64(24+len(padded)))...), 0, 0, 0, 0), append(efiGUIDBytes(g), padded...)...)
+		}
+		if r.Bool("hand-built-guid-hob") {
+			// a block put together by hand: the length field is what fits in 16 bits of the true size
+			h := oabi.EFIHOBGUID{Header: oabi.EFIHOBGenericHeader{HobType: oabi.EFIHOBTypeGUIDExtension, HobLength: uint16(24 + len(padded))}, GUID: oabi.FromUUID(g), Data: padded}
+			switch r.Intn(6, "guid-hob-slip") {
+			case 0:
+				h.Header.HobLength += 8
+				ref = nil
+			case 1:
+				h.Header.HobType = oabi.EFIHOBTypeResourceDescriptor
+				ref = nil
+			}
+			name, write = "EFIHOBGUID/hand-built", h.WriteTo
+		} else {
+			h, err := oabi.CreateEFIHOBGUID(g, data)
+			if err != nil {
+				r.Eval(fmt.Sprintf("EFIHOBGUID|create-refused|fits=%v", fits), true)
+				if fits {
+					r.Fail("chunking-changes-result", "EFIHOBGUID/refused", "CreateEFIHOBGUID refuses %d bytes of data, which fit a GUID block (%d bytes in all): %v", n, 24+len(padded), err)
+				}
+				return
+			}
+			write = h.WriteTo
+		}
+	}
+	w := &SimWriter{failAt: -1}
+	nw, err := write(w)
+	r.Eval(fmt.Sprintf("%s|write|%v|%d", name, err == nil, len(w.buf)/4096), ref == nil)
+	switch {
+	case ref == nil && err == nil:
+		r.Fail("truncation-accepted", name+"/out-of-range", "%s: a block whose type or 16-bit length field does not describe it (%d bytes written, length field %d) was encoded", name, len(w.buf), int(w.buf[2])|int(w.buf[3])<<8)
+		return
+	case ref == nil:
+		return
+	case err != nil:
+		r.Fail("chunking-changes-result", name+"/refused", "%s: an in-range block of %d bytes is refused: %v", name, len(ref), err)
+		return
+	case !bytes.Equal(w.buf, ref):
+		r.Fail("chunking-changes-result", name+"/layout", "%s: the encoding (%d bytes) differs from the PI specification layout (%d bytes) at offset %d", name, len(w.buf), len(ref), firstDiff(w.buf, ref))
+		return
+	case nw != int64(len(ref)):
+		r.Fail("write-error-swallowed", name+"/count", "%s: WriteTo reports %d bytes, %d were written", name, nw, len(ref))
+	}
+	var offs []int
+	if len(ref) <= 700 {
+		for n := 0; n < len(ref); n++ {
+			offs = append(offs, n)
+		}
+	} else {
+		for i := 0; i < 24; i++ {
+			offs = append(offs, i)
+		}
+		for i := 0; i < 40; i++ {
+			offs = append(offs, r.Intn(len(ref), "hob-woff"))
+		}
+	}
+	for _, n := range offs {
+		fw := &SimWriter{failAt: n, short: n%2 == 0}
+		_, err := write(fw)
+		r.Faults["write-fail-at"]++
+		r.Eval(fmt.Sprintf("%s|write-fail|%s|%v", name, hobPos(n, len(ref)), err != nil), true)
+		if err == nil {
+			r.Fail("write-error-swallowed", name, "%s: WriteTo returned nil although the writer failed at offset %d of %d (wrote %d bytes)", name, n, len(ref), len(fw.buf))
+		}
+	}
+	r.Probe("pi-hob-encoder")
+}
+
+func hobPos(n, total int) string {
+	switch {
+	case n < 8:
+		return "header"
+	case n < 24:
+		return "fixed-part"
+	case n > total-8:
+		return "tail"
+	}
+	return "middle"
+}
+
+func firstDiff(a, b []byte) int {
+	for i := 0; i < len(a) && i < len(b); i++ {
+		if a[i] != b[i] {
+			return i
+		}
+	}
+	if len(a) < len(b) {
+		return len(a)
+	}
+	return len(b)
+}
+
 func runC18(r *core.Run) {
 	strLens, badDigests = nil, 0
 	defer func() { strLens, badDigests = nil, 0 }()
@@ -316,6 +482,9 @@ func runC18(r *core.Run) {
 	if r.Chance(10, "inner-cut?") {
 		c18InnerCut(r)
 		strLens, badDigests = nil, 0
+	}
+	if r.Chance(15, "pi-hob?") {
+		c18Hob(r)
 	}
 	// the value under test and a factory for empty values of its type
 	var v streamable
